@@ -1313,5 +1313,92 @@ theorem c04_shape_TreeNodeInstance_hasFlag :
     Shapes.treenode_TreeNodeInstance_hasFlag =
    ["return:((n.messageTypeFlags[]&f)!=0)"] := rfl
 
+theorem c04_shape_TreeNodeInstance_aggregate_b2 :
+    Shapes.treenode_TreeNodeInstance_aggregate_b2 =
+   ["assign:mt:=onetMsg.MsgType", "n.IsRoot", "n.Parent", "TreeNodeID.Equal",
+     "assign:fromParent:=(!n.IsRoot()&&onetMsg.From.TreeNodeID.Equal(n.Parent().ID))",
+     "if:(fromParent||!n.hasFlag(mt,AggregateMessages))", "return:mt,conv{onetMsg},true",
+     "assign:_,ok:=n.msgQueue[mt]", "if:!ok", "assign:n.msgQueue[mt]=make(conv,0)",
+     "assign:msgs:=append(n.msgQueue[mt],onetMsg)", "assign:n.msgQueue[mt]=msgs",
+     "if:(len(msgs)==len(n.Children()))", "return:mt,msgs,true", "return:mt,nil,false"] := rfl
+
+theorem c04_shape_TreeNodeInstance_setFlag_b2 :
+    Shapes.treenode_TreeNodeInstance_setFlag_b2 =
+   ["assign:n.messageTypeFlags[mt]|=f"] := rfl
+
+theorem c04_shape_TreeNodeInstance_clearFlag_b2 :
+    Shapes.treenode_TreeNodeInstance_clearFlag_b2 =
+   ["assign:n.messageTypeFlags[mt]&^=f"] := rfl
+
+theorem c04_shape_TreeNodeInstance_hasFlag_b2 :
+    Shapes.treenode_TreeNodeInstance_hasFlag_b2 =
+   ["return:((n.messageTypeFlags[mt]&f)!=0)"] := rfl
+
+theorem c04_shape_TreeNodeInstance_dispatchHandler_b2 :
+    Shapes.treenode_TreeNodeInstance_dispatchHandler_b2 =
+   ["assign:mt:=msgSlice[0].MsgType", "assign:to:=reflect.TypeOf().In(0)",
+     "assign:f:=reflect.ValueOf(n.handlers[mt])", "if:n.hasFlag(mt,AggregateMessages)",
+     "assign:msgs:=reflect.MakeSlice(to,len(msgSlice),len(msgSlice))", "range:i,msg:=msgSlice{",
+     "to.Elem", "n.createValueAndVerify", "assign:m,err:=n.createValueAndVerify(to.Elem(),msg)",
+     "if:(err!=nil)", "return:xerrors.Errorf(\"\",err)", "msgs.Index", "Index().Set", "}",
+     "f.Call", "assign:errV=f.Call(conv{msgs})[0]", "else", "range:_,msg:=msgSlice{",
+     "if:(errV.IsValid()&&!errV.IsNil())", "n.createValueAndVerify",
+     "assign:m,err:=n.createValueAndVerify(to,msg)", "if:(err!=nil)",
+     "return:xerrors.Errorf(\"\",err)", "f.Call", "assign:errV=f.Call(conv{m})[0]", "}",
+     "if:!errV.IsNil()", "return:xerrors.Errorf(\"\",errV.Interface())", "return:nil"] := rfl
+
+theorem c04_shape_TreeNodeInstance_dispatchChannel_b2 :
+    Shapes.treenode_TreeNodeInstance_dispatchChannel_b2 =
+   ["assign:mt:=msgSlice[0].MsgType", "defer{", "assign:r:=recover()", "if:(r!=nil)", "}",
+     "assign:to:=reflect.TypeOf(n.channels[mt])", "if:n.hasFlag(mt,AggregateMessages)",
+     "to.Elem", "assign:to=to.Elem()",
+     "assign:out:=reflect.MakeSlice(to,len(msgSlice),len(msgSlice))", "range:i,msg:=msgSlice{",
+     "to.Elem", "n.createValueAndVerify", "assign:m,err:=n.createValueAndVerify(to.Elem(),msg)",
+     "if:(err!=nil)", "return:xerrors.Errorf(\"\",err)", "out.Index", "Index().Set", "}", "else",
+     "range:_,msg:=msgSlice{", "assign:out:=reflect.ValueOf(n.channels[mt])", "to.Elem",
+     "n.createValueAndVerify", "assign:m,err:=n.createValueAndVerify(to.Elem(),msg)",
+     "if:(err!=nil)", "return:xerrors.Errorf(\"\",err)", "if:(out.Len()<out.Cap())",
+     "msgDispatchQueueMutex.Lock", "assign:closing:=n.closing", "msgDispatchQueueMutex.Unlock",
+     "if:!closing", "out.Send", "else", "return:xerrors.Errorf((\"\"+\"\"),mt,n.ProtocolName())",
+     "}", "return:nil"] := rfl
+
+theorem c04_shape_TreeNodeInstance_dispatchMsgToProtocol_b2 :
+    Shapes.treenode_TreeNodeInstance_dispatchMsgToProtocol_b2 =
+   ["rx.add", "if:(onetMsg.From==nil)", "return:xerrors.New(\"\")", "n.aggregate",
+     "assign:msgType,msgs,done:=n.aggregate(onetMsg)", "if:!done", "return:nil", "switch:{",
+     "case:(n.channels[msgType]!=nil)", "n.dispatchChannel",
+     "assign:err=n.dispatchChannel(msgs)", "case:(n.handlers[msgType]!=nil)",
+     "n.dispatchHandler", "assign:err=n.dispatchHandler(msgs)", "default",
+     "return:xerrors.Errorf(\"\",reflect.TypeOf(onetMsg.Msg))", "}", "if:(err!=nil)",
+     "return:xerrors.Errorf(\"\",err)", "return:nil"] := rfl
+
+theorem c04_shape_TreeNodeInstance_RegisterHandler_b2 :
+    Shapes.treenode_TreeNodeInstance_RegisterHandler_b2 =
+   ["uint32", "assign:flags:=uint32(0)", "assign:cr:=reflect.TypeOf(c)",
+     "if:(cr.Kind()!=reflect.Func)", "return:xerrors.New(\"\")", "if:(cr.NumOut()!=1)",
+     "return:xerrors.New(\"\")", "if:(cr.Out(0)!=reflect.TypeOf().Elem())",
+     "return:xerrors.New(\"\")", "cr.In", "assign:ci:=cr.In(0)", "if:(ci.Kind()==reflect.Slice)",
+     "assign:flags+=AggregateMessages", "ci.Elem", "assign:ci=ci.Elem()",
+     "if:(ci.Kind()!=reflect.Struct)", "return:xerrors.New(\"\")", "if:(ci.NumField()!=2)",
+     "return:xerrors.New(\"\")", "if:(ci.Field(0).Type!=reflect.TypeOf(&TreeNode{}))",
+     "return:xerrors.New(\"\")", "assign:ptr:=reflect.New(ci.Field(1).Type)", "ptr.Interface",
+     "network.RegisterMessage", "assign:typ:=network.RegisterMessage(ptr.Interface())",
+     "assign:n.handlers[typ]=c", "assign:n.messageTypeFlags[typ]=flags", "return:nil"] := rfl
+
+theorem c04_shape_TreeNodeInstance_RegisterChannelLength_b2 :
+    Shapes.treenode_TreeNodeInstance_RegisterChannelLength_b2 =
+   ["uint32", "assign:flags:=uint32(0)", "assign:cr:=reflect.TypeOf(c)",
+     "if:(cr.Kind()==reflect.Ptr)", "assign:val:=reflect.ValueOf().Elem()", "val.Set",
+     "return:n.RegisterChannel(reflect.Indirect().Interface())", "else",
+     "if:reflect.ValueOf().IsNil()", "return:xerrors.New(\"\")", "if:(cr.Kind()!=reflect.Chan)",
+     "return:xerrors.New(\"\")", "if:(cr.Elem().Kind()==reflect.Slice)",
+     "assign:flags+=AggregateMessages", "cr.Elem", "assign:cr=cr.Elem()",
+     "if:(cr.Elem().Kind()!=reflect.Struct)", "return:xerrors.New(\"\")",
+     "if:(cr.Elem().NumField()!=2)", "return:xerrors.New(\"\")",
+     "if:(cr.Elem().Field(0).Type!=reflect.TypeOf(&TreeNode{}))", "return:xerrors.New(\"\")",
+     "assign:m:=reflect.New(cr.Elem().Field(1).Type)", "m.Interface", "network.RegisterMessage",
+     "assign:typ:=network.RegisterMessage(m.Interface())", "assign:n.channels[typ]=c",
+     "assign:n.messageTypeFlags[typ]=flags", "return:nil"] := rfl
+
 
 end C04
